@@ -6,7 +6,7 @@ from .mai import State, Undecided
 from . import inputs, rules_c02
 from .common import fmt_lits, real_lits, fmt_deps
 from .rules_c01 import TYPE_VAR
-from .rules_c03 import take, fld, play_of, affine_of
+from .rules_c03 import take, fld, play_of, affine_of, recorded_boards
 from .rules_c04 import eval_deep
 from .rules_hash import ROW_TYPES
 from spec import geometry as G
@@ -159,7 +159,7 @@ def check_place_transitions(ctx, prog, I):
                 if case == 'after h7' and is_play:
                     pl = ph.fields[0]
                     newh = eval_deep_hf(fld(prog, GS, r, 'hash'), asg, I)
-                    prev = fld(prog, PP, pl, 'previous_piece_boards_this_move')
+                    prev = recorded_boards(I, prog, pl)
                     pps = fld(prog, PP, pl, 'push_pull_state')
                     tr = fld(prog, PP, pl, 'piece_trapped_this_turn')
                     ih = fld(prog, PP, pl, 'initial_hash_of_move')
